@@ -340,3 +340,40 @@ def ref_index(r, i):
 
 def ref_slice(r, a, b):
     return r.piece(r.cells[slice(a, b)])
+
+
+def ref_detect_indentation(s):
+    """gcd of the even numbers of leading U+0020 spaces over all lines (blank ones included), `or 1`"""
+    from functools import reduce
+    from math import gcd
+
+    evens = {len(line) - len(line.lstrip(" ")) for line in s.split("\n")}
+    evens = [n for n in evens if n % 2 == 0]
+    return (reduce(gcd, evens) or 1) if evens else 1
+
+
+def ref_indent_guides(r, size, character, style):
+    """with_indent_guides on the reference: expand tabs, then per non-blank line the leading spaces are replaced by
+    guide characters every `size` columns (in `style`, on top of what the spaces carried); blank lines become the
+    previous^Wnext line's indent (in `style` as BASE style); lines joined with an unstyled newline."""
+    if size is None:
+        size = ref_detect_indentation(r.s())
+    r1 = ref_expand_tabs(r, None)
+    lines = ref_split(r1, "\n", False, False)
+    indent_line = character + " " * (size - 1)
+    out, blank = [], 0
+    for ln in lines:
+        ls = ln.s()
+        ind = len(ls) - len(ls.lstrip(" "))
+        if ls[ind:] == "":
+            blank += 1
+            continue
+        full, rem = divmod(ind, size)
+        new_indent = indent_line * full + " " * rem
+        ln2 = ref_set_string(ln, new_indent + ls[len(new_indent):])
+        ln2 = ref_stylize(ln2, style, 0, len(new_indent))
+        out += [Ref(style, [(c, ()) for c in strip_ctl(new_indent)])] * blank
+        blank = 0
+        out.append(ln2)
+    out += [Ref(style, [])] * blank
+    return ref_join(Ref("", [("\n", ())]), out)
